@@ -60,6 +60,12 @@ def build_response(spec, req, prev_key):
         hdrs.append(("Sec-WebSocket-Accept", good[:-2]))
     elif acc == "swapcase":
         hdrs.append(("Sec-WebSocket-Accept", good.swapcase()))
+    elif acc.startswith("garbled"):
+        # the right token with characters mixed in that are not part of it (a lenient base64 decoder would skip them)
+        v = {"garbled-bang": good[:5] + "!" + good[5:], "garbled-dash": good[:9] + "-" + good[9:], "garbled-underscore": "_" + good,
+             "garbled-dot": good[:-1] + ".=", "garbled-blank": good[:7] + " " + good[7:], "garbled-quotes": '"' + good + '"',
+             "garbled-hash": "#" + good, "garbled-tail": good + "AAAA", "garbled-tail2": good + "=", "garbled-crlfless": good + ", " + good}[acc]
+        hdrs.append(("Sec-WebSocket-Accept", v))
     if spec.get("proto") is not None:
         hdrs.append(("Sec-WebSocket-Protocol", spec["proto"]))
     if spec.get("location") is not None:
@@ -240,7 +246,7 @@ def _why(case, exp, resp_lens=None):
         if co is None or "upgrade" not in rm.tokens(co):
             return "connection-header"
         if h.get("accept", "ok") != "ok":
-            return f"accept-{h['accept']}"
+            return f"accept-{h['accept'].split('-')[0]}"
         return "subprotocol"
     return "redirect-end"
 
@@ -249,7 +255,8 @@ def _why(case, exp, resp_lens=None):
 statuses = st.sampled_from([101, 101, 101, 100, 102, 200, 204, 400, 401, 403, 404, 426, 500, 503, 199, 1000])
 upgrades = st.sampled_from(["websocket", "websocket", "WebSocket", "websocket, x", "x, websocket", "h2c", "", "websocketx", None])
 connections = st.sampled_from(["Upgrade", "Upgrade", "upgrade", "keep-alive, Upgrade", "keep-alive", "Upgradex", "", None])
-accepts = st.sampled_from(["ok", "ok", "ok", "missing", "empty", "prev", "other", "altered", "truncated", "swapcase"])
+accepts = st.sampled_from(["ok", "ok", "ok", "missing", "empty", "prev", "other", "altered", "truncated", "swapcase", "garbled-bang", "garbled-dash",
+                           "garbled-underscore", "garbled-dot", "garbled-blank", "garbled-quotes", "garbled-hash", "garbled-tail", "garbled-tail2", "garbled-crlfless"])
 extras = st.lists(
     st.sampled_from([("Server", "sim"), ("Date", "Mon, 01 Jan 2024 00:00:00 GMT"), ("X-A", "b: c"), ("Content-Length", "0"),
                      ("Sec-WebSocket-Extensions", "permessage-deflate"), ("Set-Cookie", "k=v")]),
